@@ -1,6 +1,7 @@
 package main
 
 import (
+	"regexp"
 	"fmt"
 	"go/ast"
 	"go/constant"
@@ -27,6 +28,8 @@ type SpecEnv struct {
 	pkg   *types.Package
 	where string
 	err   error
+	lets  [][2]string
+	boundB map[string]bool
 }
 
 // preprocessSpec turns "A ==> B" into implies(A, B) (right associative, lowest precedence) at every
@@ -128,6 +131,7 @@ func (x *Exec) evalSpec(env *SpecEnv, expr string) (term string, err error) {
 			panic(r)
 		}
 	}()
+	expr = env.expandLets(expr)
 	e, perr := parser.ParseExpr(preprocessSpec(expr))
 	if perr != nil {
 		return "", fmt.Errorf("%s: cannot parse %q: %v", env.where, expr, perr)
@@ -135,6 +139,16 @@ func (x *Exec) evalSpec(env *SpecEnv, expr string) (term string, err error) {
 	v := env.eval(e)
 	t := env.term(v)
 	return t, nil
+}
+
+// expandLets applies the contract's textual macros (//@ let name = expr), later ones may use earlier ones.
+func (env *SpecEnv) expandLets(expr string) string {
+	lets := env.lets
+	for i := len(lets) - 1; i >= 0; i-- {
+		re := regexp.MustCompile(`\b` + regexp.QuoteMeta(lets[i][0]) + `\b`)
+		expr = re.ReplaceAllStringFunc(expr, func(string) string { return "(" + lets[i][1] + ")" })
+	}
+	return expr
 }
 
 type specErr string
@@ -239,6 +253,9 @@ func (env *SpecEnv) ident(name string) *Val {
 		return &Val{T: nil, Tag: &Tag{Kind: tagOpaque, Module: "", Field: "st"}}
 	}
 	if b, ok := env.bound[name]; ok {
+		if env.boundB[b] {
+			return &Val{T: types.NewSlice(types.Typ[types.Uint8]), S: b}
+		}
 		return &Val{T: mathInt, S: b}
 	}
 	if v, ok := env.vars[name]; ok {
@@ -535,10 +552,12 @@ func (env *SpecEnv) call(e *ast.CallExpr) *Val {
 		switch id.Name {
 		case "old":
 			if env.old == nil {
-				env.failf("old() not available here")
+				// already evaluating in the entry state: old is idempotent
+				return env.eval(e.Args[0])
 			}
 			o := *env.old
 			o.bound = env.bound
+			o.boundB = env.boundB
 			return o.eval(e.Args[0])
 		case "len":
 			v := env.eval(e.Args[0])
@@ -599,18 +618,43 @@ func (env *SpecEnv) call(e *ast.CallExpr) *Val {
 				m.st.pc = append(m.st.pc[:m.base:m.base], keep...)
 				m.st.pcb = append(m.st.pcb[:m.base:m.base], keepb...)
 			}
-			if len(guards) > 0 {
-				if id.Name == "forall" {
-					body = implies(and(guards...), body)
-				} else {
-					body = and(and(guards...), body)
-				}
-			}
+			// the facts are type invariants of program values (true, but not derivable inside the logic): they are
+			// simply dropped under binders — the clause is used exactly as written in the contract
+			_ = guards
 			rng := and(sx("<=", lo, bn), sx("<", bn, hi))
 			if id.Name == "forall" {
 				return &Val{T: B, S: fmt.Sprintf("(forall ((%s Int)) %s)", bn, implies(rng, body))}
 			}
 			return &Val{T: B, S: fmt.Sprintf("(exists ((%s Int)) %s)", bn, and(rng, body))}
+		case "forallb":
+			// forallb(d, body): for every byte string d (e.g. every token denomination)
+			iv, ok := e.Args[0].(*ast.Ident)
+			if !ok || len(e.Args) != 2 {
+				env.failf("forallb(d, body) expected")
+			}
+			bn := fmt.Sprintf("%s!q%d", iv.Name, len(env.bound))
+			nb := map[string]string{}
+			for k, v := range env.bound {
+				nb[k] = v
+			}
+			nb[iv.Name] = bn
+			nbb := map[string]bool{bn: true}
+			for k, v := range env.boundB {
+				nbb[k] = v
+			}
+			ne := *env
+			ne.bound, ne.boundB = nb, nbb
+			if ne.old != nil {
+				o := *ne.old
+				o.bound, o.boundB = nb, nbb
+				ne.old = &o
+			}
+			body := ne.term(ne.eval(e.Args[1]))
+			return &Val{T: B, S: fmt.Sprintf("(forall ((%s Bytes)) %s)", bn, body)}
+		case "amt":
+			// amt(coins, denom): amount of a denomination in an sdk.Coins value
+			x.coinSorts()
+			return &Val{T: mathInt, S: sx("coins.amt", env.term(env.eval(e.Args[0])), env.term(env.eval(e.Args[1])))}
 		case "has":
 			v := env.eval(e.Args[0])
 			if v.Tag != nil && v.Tag.Kind == tagColl {
@@ -681,6 +725,18 @@ func (env *SpecEnv) call(e *ast.CallExpr) *Val {
 		case "bytes", "string":
 			return env.eval(e.Args[0])
 		}
+		// a function of the package under verification (side-effect free): evaluated symbolically
+		if env.pkg != nil {
+			if obj, ok := env.pkg.Scope().Lookup(id.Name).(*types.Func); ok {
+				if fn := x.prog.SSA.FuncValue(obj); fn != nil {
+					var args []*Val
+					for _, a := range e.Args {
+						args = append(args, env.eval(a))
+					}
+					return x.evalPure(env.s, fn, args)
+				}
+			}
+		}
 		// user-defined SMT function / summary function
 		var as []string
 		for _, a := range e.Args {
@@ -689,8 +745,28 @@ func (env *SpecEnv) call(e *ast.CallExpr) *Val {
 		rt := x.smtFunResult(id.Name)
 		return &Val{T: rt, S: sx(id.Name, as...)}
 	}
-	// method call
+	// method call or package-qualified function
 	if sel, ok := e.Fun.(*ast.SelectorExpr); ok {
+		if pid, ok := sel.X.(*ast.Ident); ok && env.pkg != nil {
+			if _, isVar := env.vars[pid.Name]; !isVar && env.bound[pid.Name] == "" && pid.Name != "st" {
+				if path, ok := x.prog.importPath(env.pkg.Path(), pid.Name); ok {
+					for _, imp := range env.pkg.Imports() {
+						if imp.Path() != path {
+							continue
+						}
+						if obj, ok := imp.Scope().Lookup(sel.Sel.Name).(*types.Func); ok {
+							if fn := x.prog.SSA.FuncValue(obj); fn != nil && len(fn.Blocks) > 0 {
+								var args []*Val
+								for _, a := range e.Args {
+									args = append(args, env.eval(a))
+								}
+								return x.evalPure(env.s, fn, args)
+							}
+						}
+					}
+				}
+			}
+		}
 		recv := env.eval(sel.X)
 		var args []*Val
 		for _, a := range e.Args {
@@ -753,6 +829,26 @@ func lookupIfaceMethod(T types.Type, name string) *types.Func {
 // evalPure runs a (side-effect free) /repo function on the state and merges
 // the results of its paths into one term.
 func (x *Exec) evalPure(s *State, fn *ssa.Function, args []*Val) *Val {
+	// memo: the same pure call on the same state version (macros repeat sub-expressions many times)
+	key := fmt.Sprintf("%d|%d|%d|%s", s.id, s.ver, len(s.pc), fn.String())
+	for _, a := range args {
+		key += "|" + a.String()
+		if a.Ptr != nil {
+			key += fmt.Sprintf("@%d%s", a.Ptr.Obj, pathKey(a.Ptr))
+		}
+	}
+	if x.pureCache == nil {
+		x.pureCache = map[string]*Val{}
+	}
+	if v, ok := x.pureCache[key]; ok {
+		return v
+	}
+	v := x.evalPure1(s, fn, args)
+	x.pureCache[key] = v
+	return v
+}
+
+func (x *Exec) evalPure1(s *State, fn *ssa.Function, args []*Val) *Val {
 	type res struct {
 		cond string
 		v    *Val
